@@ -308,11 +308,15 @@ def check_payload_dispatch(ctx, rule="WIRE-PD"):
             eng = lib_parse.mk_engine(F, cuts=[c for c in lib_parse.CUTS if c != PAY])
             st0 = State()
             args = eng.symbolic_args(b, names=names)
-            if len(args) != 5:
-                R.violation(rule, PAY + "|signature", "dlt_payload takes %d arguments (expected input, verbose, payload_length, arg_cnt, msg_type)" % len(args), function=PAY, kind="UNRECOGNISED-SHAPE")
-                return
-            args[1] = _Bool(("const", verb0))
-            mv = eng.M.force(st0, args[4])
+            # the two selectors are found by type (the function is private: its parameter list may be reshaped)
+            tys = [F.ty_s(b["locals"][i]["ty"]) for i in range(1, b["arg_count"] + 1)]
+            i_verb = [i for i, t_ in enumerate(tys) if t_ == "bool"]
+            i_mt = [i for i, t_ in enumerate(tys) if re.match(r"^(std|core)::option::Option<dlt::MessageType>$", t_)]
+            if len(i_verb) != 1 or len(i_mt) != 1 or len(args) != 5:
+                R.notes.append("%s: dlt_payload has parameters %s — the VERB flag / message type selectors are not a `bool` and an `Option<MessageType>` (not decided)" % (rule, tys))
+                return 0
+            args[i_verb[0]] = _Bool(("const", verb0))
+            mv = eng.M.force(st0, args[i_mt[0]])
             ok_in = isinstance(mv, Enum)
             if ok_in:
                 if mt0 == "-":
@@ -332,7 +336,7 @@ def check_payload_dispatch(ctx, rule="WIRE-PD"):
                     keep = tuple(keep)
                 ok_in = bool(keep)
                 if ok_in:
-                    args[4] = Enum(mv.ty, keep, mv.name)
+                    args[i_mt[0]] = Enum(mv.ty, keep, mv.name)
             if not ok_in:
                 R.violation(rule, "%s|input|verb=%d|type=%s" % (PAY, int(verb0), mt0), "cannot construct a dlt_payload input with VERB=%d and message type %s" % (verb0, mt0), function=PAY, kind="UNRECOGNISED-SHAPE")
                 continue
